@@ -13,6 +13,7 @@ type Profile struct {
 	ForceSz  bool
 	ForceSt  bool
 	NoExp    bool
+	Queued   bool // executor that only queues its tasks; no refresh policy
 	Boundary int // weight of deadline-exact clock moves
 }
 
@@ -84,6 +85,14 @@ func init() {
 	rf.OpW[OpAdvance] = 16
 	Profiles["refresh"] = rf
 
+	qu := &Profile{Name: "queued", OpW: baseWeights(), Queued: true, ForceSz: true, Boundary: 4}
+	qu.OpW[OpSet] = 24
+	qu.OpW[OpRunTasks] = 8
+	qu.OpW[OpCleanUp] = 3
+	qu.OpW[OpSetMaximum] = 2
+	qu.OpW[OpRefresh], qu.OpW[OpBulkRefresh], qu.OpW[OpSetRefreshableAfter] = 0, 0, 0
+	Profiles["queued"] = qu
+
 	st := &Profile{Name: "stats", OpW: baseWeights(), ForceSt: true, Boundary: 4}
 	st.OpW[OpGet] = 10
 	st.OpW[OpBulkGet] = 8
@@ -120,6 +129,10 @@ func GenConfig(r *core.Rng, p *Profile) Config {
 	}
 	if p.ForceRef || r.Chance(4, 10) {
 		c.RefKind = 1 + r.Intn(5)
+	}
+	if p.Queued {
+		c.Queued = true
+		c.RefKind = RefNone // reload tasks would be queued too; executor timing of reloads is covered by the concurrent engine
 	}
 	c.Stats = p.ForceSt || r.Chance(1, 2)
 	c.InitCap = []int{0, 0, 1, 3, 16, 1000}[r.Intn(6)]
@@ -209,6 +222,9 @@ func (g *Gen) Next(m *Model) Op {
 	if !c.WithTime() {
 		w[OpAdvance] = 1
 	}
+	if !c.Queued {
+		w[OpRunTasks] = 0
+	}
 	kind := r.Pick(w[:])
 	op := Op{Kind: kind, Name: opNames[kind]}
 	switch kind {
@@ -258,6 +274,12 @@ func (g *Gen) Next(m *Model) Op {
 		op.Max = opts[r.Intn(len(opts))]
 	case OpIterate:
 		op.Which = r.Intn(5)
+	case OpRunTasks:
+		op.Dur = int64(1 + r.Intn(4))
+		if r.Chance(1, 4) {
+			op.Dur = 1 << 20
+		}
+		op.Which = r.Intn(3)
 	}
 	return op
 }
